@@ -86,7 +86,7 @@ func genC06(dir, tier string, seed int64) {
 		n = 6000
 	}
 	cw := newCaseWriter(dir, "C06_ops", opHeader("CheckC06"), opFooter,
-		"seeded random RNN / GRU / LSTM nodes: seq 1..4, batch 1..3, input 1..3, hidden 1..3 (all combinations incl. hidden = 1 and batch*input = 1), every subset of the optional inputs B, initial_h, initial_c, P (omitted trailing inputs and explicitly skipped ones), default and explicit activation lists over {Sigmoid, Tanh, Relu} in the ONNX and in lower-case spelling (and unknown names, too short lists), linear_before_reset in {absent,0,1}, input_forget in {absent,0,1}, float32 (float64 rarely: must be computed or refused); weights with pairwise distinct non-zero gate blocks and biases so that any gate or bias-slot swap moves the result far outside the tolerance", false, 60)
+		"seeded random RNN / GRU / LSTM nodes: seq 1..4, batch 1..3, input 1..3, hidden 1..3 (all combinations incl. hidden = 1 and batch*input = 1), every subset of the optional inputs B, initial_h, initial_c, P (omitted trailing inputs and explicitly skipped ones), default and explicit activation lists over {Sigmoid, Tanh, Relu} in the ONNX and in lower-case spelling (and, one explicit list in five, a name the library does not implement -- Softsign, HardSigmoid, LeakyRelu, Elu, Affine, ThresholdedRelu, ScaledTanh, Softplus, the empty string -- with or without activation_alpha / activation_beta; too short lists), linear_before_reset in {absent,0,1}, input_forget in {absent,0,1}, float32 (float64 rarely: must be computed or refused); weights with pairwise distinct non-zero gate blocks and biases so that any gate or bias-slot swap moves the result far outside the tolerance", false, 60)
 	split := goOnlyResult{Stream: "C06_split", Rule: "for every generated configuration that runs and every split point 0 < k < seq: running X[0:k] and then X[k:] from the final state(s) of the first piece gives, bit for bit, the Y (concatenated), Y_h and Y_c of the whole run", Violations: []string{}}
 	gates := map[string]int{"RNN": 1, "GRU": 3, "LSTM": 4}
 	for c := 0; c < n; c++ {
@@ -130,13 +130,25 @@ func genC06(dir, tier string, seed int64) {
 			for i := 0; i < nAct; i++ {
 				l = append(l, names[r.Intn(3)])
 			}
-			if r.Intn(8) == 0 {
-				l[r.Intn(len(l))] = "Softsign"
+			withParams := false
+			if r.Intn(5) == 0 {
+				// activations of the ONNX list that the library does not implement: refused, never replaced
+				// by a default or computed with parameters other than the node's
+				other := []string{"Softsign", "HardSigmoid", "hardsigmoid", "LeakyRelu", "Elu", "Affine", "ThresholdedRelu", "ScaledTanh", "Softplus", ""}
+				l[r.Intn(len(l))] = other[r.Intn(len(other))]
+				withParams = r.Intn(2) == 0
 			}
 			if r.Intn(10) == 0 && len(l) > 1 {
 				l = l[:len(l)-1]
 			}
 			cfg.attrs = append(cfg.attrs, aStrs("activations", l))
+			if withParams {
+				al, be := make([]float32, len(l)), make([]float32, len(l))
+				for i := range al {
+					al[i], be[i] = 0.3+float32(i)*0.1, 0.4
+				}
+				cfg.attrs = append(cfg.attrs, aFloats("activation_alpha", al), aFloats("activation_beta", be))
+			}
 		}
 		if op == "GRU" && r.Intn(2) == 0 {
 			cfg.attrs = append(cfg.attrs, aInt("linear_before_reset", int64(r.Intn(2))))
